@@ -62,7 +62,7 @@ Proof. intros. unfold prim1. apply sat_do; [assumption | intro; apply sat_ret]. 
 
 (* case analysis of one primitive step *)
 Ltac prim_cases :=
-  unfold run_prim, do_close, do_write, do_read, set_pipe, spend, grant, pop_decision;
+  unfold run_prim, do_close, do_write, do_write_content, blocked_write, do_read, set_pipe, set_mu, mutex_hang, stick, spend, grant, pop_decision;
   repeat match goal with
          | |- context [if ?c then _ else _] => destruct c eqn:?
          | |- context [match ?x with _ => _ end] => destruct x eqn:?
@@ -94,12 +94,21 @@ Proof.
 Qed.
 
 (* Q: a smtp.Client that is not connected has no open transport *)
+(* M: the mutex of smtp.Client is never left locked (T1: every locking method unlocks on every return path) *)
+Definition Minv (w : world) : Prop := mu_ok (w_cs w) = true /\ mu_held (w_cs w) = false.
+
+Lemma prim_M : forall B (p : prim B) w, Minv w -> Minv (snd (run_prim p w)).
+Proof.
+  intros B p w [H1 H2]. unfold Minv in *. destruct p; prim_cases; split; auto; try congruence.
+Qed.
+
 Definition Qinv (w : world) : Prop :=
-  opened (w_conn w) = true /\ (connected (w_cs w) = false -> copen (w_conn w) = false).
+  opened (w_conn w) = true /\ (connected (w_cs w) = false -> copen (w_conn w) = false) /\ Minv w.
 
 Lemma prim_Q : forall B (p : prim B) w, Qinv w -> Qinv (snd (run_prim p w)).
 Proof.
-  intros B p w [H1 H2]. unfold Qinv in *. destruct p; prim_cases; split; auto; try congruence; intros; try discriminate; fin.
+  intros B p w (H1 & H2 & H3 & H4). unfold Qinv, Minv in *.
+  destruct p; prim_cases; repeat split; auto; try congruence; intros; try discriminate; fin.
 Qed.
 
 (* a closed transport stays closed *)
@@ -116,17 +125,21 @@ Definition Jinv (w : world) : Prop :=
   (* the textproto pipeline: no command waits on an unfinished predecessor -- every id handed out has had its
      EndResponse, unless its write failed, and then every later write fails too *)
   endresp (w_cs w) = true /\
-  (pipe_out (w_cs w) = O \/ copen (w_conn w) = false \/ sopen (w_srv w) = false).
+  (pipe_out (w_cs w) = O \/ copen (w_conn w) = false \/ sopen (w_srv w) = false \/ wmode (w_srv w) <> None) /\
+  (* the mutex of smtp.Client is never left locked *)
+  mu_ok (w_cs w) = true /\ mu_held (w_cs w) = false.
 
 Lemma prim_J : forall B (p : prim B) w, Jinv w -> Jinv (snd (run_prim p w)).
 Proof.
-  intros B p w (H1 & H2 & H3 & H4 & H5). unfold Jinv in *.
+  intros B p w (H1 & H2 & H3 & H4 & H5 & H6 & H7). unfold Jinv in *.
   destruct p; prim_cases; repeat split; auto; try congruence; intros; try discriminate;
-    fin; try (destruct H5 as [H5 | [H5 | H5]]; congruence); try (right; right; assumption);
+    fin; try (destruct H5 as [H5 | [H5 | [H5 | H5]]]; congruence); try (right; right; left; assumption);
     try (right; left; reflexivity); try (left; reflexivity);
     try (right; left; assumption); try (left; assumption);
     try (rewrite H4 in *; simpl in *; discriminate);
-    try (destruct H5 as [H5 | [H5 | H5]]; [left; exact H5 | congruence | congruence]).
+    try (destruct H5 as [H5 | [H5 | [H5 | H5]]]; [left; exact H5 | congruence | congruence | right; right; right; exact H5]);
+    try (right; right; right; congruence);
+    try (destruct H5 as [H5 | [H5 | [H5 | H5]]]; [left; exact H5 | congruence | congruence | exfalso; apply H5; congruence]).
 Qed.
 
 (* T: inside TLS no cleartext command is added *)
@@ -198,8 +211,8 @@ Qed.
 Lemma close_failed_closed : forall cfg w, fx_close cfg = true -> Qinv w ->
   Closed (snd (run (close_failed cfg) w)).
 Proof.
-  intros cfg w Hf [H1 H2]. unfold close_failed. rewrite Hf. unfold prim1. simpl.
-  destruct (connected (w_cs w)) eqn:Ec; simpl; unfold run_prim; simpl.
+  intros cfg w Hf (H1 & H2 & H3 & H4). unfold close_failed. rewrite Hf. unfold prim1. simpl.
+  destruct (connected (w_cs w)) eqn:Ec; simpl; unfold run_prim; simpl; try rewrite H4.
   - unfold Closed; simpl. split; [rewrite do_close_opened; exact H1 | apply do_close_copen].
   - split; [exact H1 | auto].
 Qed.
@@ -289,18 +302,19 @@ Lemma dial_unfold : forall fuel cfg,
                    match c with Some e => Ret (Err e) | None => arm_opt cfg ;;; dial_rest fuel cfg end).
 Proof. reflexivity. Qed.
 
-Lemma dial_rest_closed : forall fuel cfg w r w', fx_close cfg = true -> opened (w_conn w) = true ->
+Lemma dial_rest_closed : forall fuel cfg w r w', fx_close cfg = true -> opened (w_conn w) = true -> Minv w ->
   run (dial_rest fuel cfg) w = (r, w') ->
   match r with
   | Err _ => Closed w'
   | Ok _ => Qinv w'
   end.
 Proof.
-  intros fuel cfg w r w' Hf Ho H. unfold dial_rest in H. rewrite run_conntls in H.
+  intros fuel cfg w r w' Hf Ho HM H. unfold dial_rest in H. rewrite run_conntls in H.
   sx H. pose proof (new_client_spec _ _ _ _ E) as Hn. inv_of prim_opened E. specialize (HI Ho).
+  pose proof (run_inv _ prim_M _ (new_client (ctls (w_conn w))) w HM) as HM0. rewrite E in HM0. simpl in HM0.
   destruct a as [u | e].
   2:{ simpl in H. inversion H; subst. split; assumption. }
-  assert (HQ : Qinv w0) by (split; [exact HI | intro X; congruence]).
+  assert (HQ : Qinv w0) by (split; [exact HI | split; [intro X; congruence | exact HM0]]).
   sx H. inv_of prim_Q E0. specialize (HI0 HQ).
   destruct a as [u1 | e].
   2:{ sx H. simpl in H. inversion H; subst. pose proof (close_failed_closed cfg w1 Hf HI0) as X. rewrite E1 in X. exact X. }
@@ -317,20 +331,22 @@ Lemma arm_opt_opened : forall cfg w, opened (w_conn w) = true -> opened (w_conn 
 Proof. intros. apply (run_inv opened_w prim_opened). exact H. Qed.
 
 (* dial: error => closed (if a connection was opened at all); success => Q *)
-Lemma dial_closed : forall fuel cfg w r w', fx_close cfg = true -> w_conn w = conn0 ->
+Lemma dial_closed : forall fuel cfg w r w', fx_close cfg = true -> w_conn w = conn0 -> Minv w ->
   run (dial fuel cfg) w = (r, w') ->
   match r with
   | Err _ => opened (w_conn w') = true -> copen (w_conn w') = false
   | Ok _ => Qinv w'
   end.
 Proof.
-  intros fuel cfg w r w' Hf H0 H. rewrite dial_unfold in H.
+  intros fuel cfg w r w' Hf H0 HM H. rewrite dial_unfold in H.
   sx H. pose proof (connect2_spec _ _ _ _ E H0) as Hc. clear E.
   destruct a as [e | ].
   - simpl in H. inversion H; subst. destruct Hc as [Hc _]. rewrite Hc. simpl. discriminate.
-  - destruct Hc as (Ho & _).
+  - destruct Hc as (Ho & _ & _ & _ & _ & Hcs).
+    assert (HM0 : Minv w0) by (unfold Minv in *; rewrite Hcs; exact HM).
     sx H. pose proof (arm_opt_opened cfg w0 Ho) as Ho1. rewrite E in Ho1. simpl in Ho1.
-    pose proof (dial_rest_closed _ _ _ _ _ Hf Ho1 H) as X.
+    pose proof (run_inv _ prim_M _ (arm_opt cfg) w0 HM0) as HM1. rewrite E in HM1. simpl in HM1.
+    pose proof (dial_rest_closed _ _ _ _ _ Hf Ho1 HM1 H) as X.
     destruct r; [exact X | intros _; apply X].
 Qed.
 
@@ -343,7 +359,7 @@ Definition Pw (S : verb -> bool) : forall B, prim B -> bool :=
   fun B p => match p with
              | PWrite v => S v
              | PCmd _ v => S v
-             | PRead | PGetCs | PSetHello _ | PSetExt _ | PArm => true
+             | PRead | PGetCs | PSetHello _ | PSetExt _ | PArm | PWriteContent => true
              | _ => false
              end.
 
@@ -444,11 +460,13 @@ Proof.
   sx H. conn_of (sat_cmd send_verb 354 VData eq_refl) E1 HC0.
   destruct a as [rp2 | e].
   2:{ destruct (fx_send cfg); [ sx H; sx H; simpl in H; discriminate | simpl in H; discriminate ]. }
-  sx H. conn_of (sat_prim1 (Pw send_verb) _ (PWrite VEod) eq_refl) E2 HC1.
-  sx H. conn_of (sat_prim1 (Pw send_verb) _ PRead eq_refl) E3 HC2.
+  sx H. conn_of (sat_prim1 (Pw send_verb) _ PWriteContent eq_refl) E2 HC1.
+  destruct a; try (sx H; simpl in H; discriminate).
+  sx H. conn_of (sat_prim1 (Pw send_verb) _ (PWrite VEod) eq_refl) E3 HC2.
+  sx H. conn_of (sat_prim1 (Pw send_verb) _ PRead eq_refl) E4 HC3.
   destruct (classify 250 a0); [ | simpl in H; discriminate ].
-  sx H. conn_of (sat_reset_client cfg) E4 HC3.
-  simpl in H. destruct a1; inversion H; subst. exact HC4.
+  sx H. conn_of (sat_reset_client cfg) E5 HC4.
+  simpl in H. destruct a1; inversion H; subst. exact HC5.
 Qed.
 
 Lemma send_msgs_bad_true : forall cfg msgs w b w', run (send_msgs cfg msgs true) w = (b, w') -> b = true.
@@ -485,12 +503,14 @@ Lemma run_get : forall A (k : cstate -> prog A) w, run (bind (prim1 PGetCs) k) w
 Proof. reflexivity. Qed.
 
 (* Quit *)
-Lemma do_write_true_trace : forall v w w1, do_write v w = (true, w1) ->
+Lemma do_write_true_trace : forall v w w1, do_write v w = (WOk, w1) ->
   w_trace w1 = ECmd v (negb (ctls (w_conn w))) :: w_trace w /\ w_cs w1 = w_cs w.
 Proof.
-  intros v w w1 H. unfold do_write in H.
+  intros v w w1 H. unfold do_write, blocked_write in H.
   destruct (negb (copen (w_conn w))); [discriminate|]. destruct (negb (sopen (w_srv w))); [discriminate|].
-  inversion H; subst. split; reflexivity.
+  destruct (wmode (w_srv w)) as [[f l] | ].
+  - destruct f; [discriminate | destruct (wstuck (w_clk w)); [discriminate | destruct (armed (w_conn w)); discriminate]].
+  - inversion H; subst. split; reflexivity.
 Qed.
 
 Lemma spend_trace : forall w, w_trace (spend w) = w_trace w.
@@ -507,7 +527,8 @@ Qed.
 Lemma cmd_ok_last : forall e v w rp w1, run (cmd e v) w = (Ok rp, w1) -> last_cmd (w_trace w1) = Some v.
 Proof.
   intros e v w rp w1 H. unfold cmd, prim1 in H. simpl in H. unfold run_prim in H.
-  destruct (do_write v w) as [ok w2] eqn:Ew. destruct ok; simpl in H; [ | inversion H ].
+  destruct (mu_held (w_cs w)); [ inversion H | ].
+  destruct (do_write v w) as [wr w2] eqn:Ew. destruct wr; simpl in H; try (inversion H; fail).
   destruct (do_write_true_trace _ _ _ Ew) as [Ht _].
   destruct (pipe_out (w_cs w2)); [ | inversion H ].
   destruct (do_read w2) as [rr w3] eqn:Er. pose proof (do_read_last_cmd _ _ _ Er) as Hl.
@@ -515,13 +536,16 @@ Proof.
   destruct (endresp (w_cs w3) || is_reply rr); inversion H; subst; simpl; exact Hl.
 Qed.
 
-Lemma quit_ok : forall w u w', run quit w = (Ok u, w') ->
+Lemma quit_ok : forall w u w', Minv w -> run quit w = (Ok u, w') ->
   copen (w_conn w') = false /\ connected (w_cs w') = false /\ last_cmd (w_trace w') = Some VQuit.
 Proof.
-  intros w u w' H. unfold quit in H.
-  sx H. sx H. destruct a0 as [rp | e]; [ | simpl in H; discriminate ].
+  intros w u w' HM H. unfold quit in H.
+  sx H. pose proof (run_inv _ prim_M _ hello w HM) as HM0. rewrite E in HM0. simpl in HM0.
+  sx H. pose proof (run_inv _ prim_M _ (cmd 221 VQuit) w0 HM0) as HM1. rewrite E0 in HM1. simpl in HM1.
+  destruct a0 as [rp | e]; [ | simpl in H; discriminate ].
   pose proof (cmd_ok_last _ _ _ _ _ E0) as Hl.
-  unfold prim1 in H. simpl in H. unfold run_prim in H. simpl in H. inversion H; subst. simpl.
+  unfold prim1 in H. simpl in H. unfold run_prim in H. simpl in H. destruct HM1 as [_ HM1]. rewrite HM1 in H.
+  inversion H; subst. simpl.
   rewrite do_close_copen, do_close_last_cmd. auto.
 Qed.
 
@@ -533,28 +557,28 @@ Proof.
   intros cfg w r w' Hf HQ H. unfold close_client in H.
   rewrite run_get in H.
   destruct (connected (w_cs w)) eqn:Ec; cbn [negb run] in H.
-  2:{ inversion H; subst. split; [ destruct HQ; split; auto | intros; discriminate ]. }
+  2:{ inversion H; subst. split; [ destruct HQ as (Q1 & Q2 & Q3); split; auto | intros; discriminate ]. }
   sx H. inv_of prim_Q E. specialize (HI HQ).
   sx H. inv_of prim_Q E0. specialize (HI0 HI).
   destruct a0 as [u | e].
-  - simpl in H. inversion H; subst. destruct (quit_ok _ _ _ E0) as (Q1 & Q2 & Q3).
+  - simpl in H. inversion H; subst. destruct (quit_ok _ _ _ (proj2 (proj2 HI)) E0) as (Q1 & Q2 & Q3).
     split; [ split; [apply HI0 | exact Q1] | intros; exact Q3 ].
   - rewrite Hf in H. sx H. simpl in H. inversion H; subst. split; [ | intros; discriminate ].
     rewrite run_get in E1.
-    destruct HI0 as [O1 O2].
-    destruct (connected (w_cs w1)) eqn:Ec1; simpl in E1; unfold run_prim in E1; simpl in E1; inversion E1; subst; simpl.
+    destruct HI0 as (O1 & O2 & O3 & O4).
+    destruct (connected (w_cs w1)) eqn:Ec1; simpl in E1; unfold run_prim in E1; simpl in E1; try rewrite O4 in E1; inversion E1; subst; simpl.
     + unfold Closed; simpl. split; [rewrite do_close_opened; auto | apply do_close_copen].
     + split; auto.
 Qed.
 
 Lemma dial_and_send_closed : forall fuel cfg msgs w r ph w',
-  fx_close cfg = true -> fx_quit cfg = true -> w_conn w = conn0 ->
+  fx_close cfg = true -> fx_quit cfg = true -> w_conn w = conn0 -> Minv w ->
   run (dial_and_send fuel cfg msgs) w = (r, ph, w') ->
   (opened (w_conn w') = true -> copen (w_conn w') = false) /\
   (forall u, r = Ok u -> last_cmd (w_trace w') = Some VQuit).
 Proof.
-  intros fuel cfg msgs w r ph w' Hc Hq H0 H. unfold dial_and_send in H.
-  sx H. pose proof (dial_closed _ _ _ _ _ Hc H0 E) as Hd.
+  intros fuel cfg msgs w r ph w' Hc Hq H0 HM H. unfold dial_and_send in H.
+  sx H. pose proof (dial_closed _ _ _ _ _ Hc H0 HM E) as Hd.
   destruct a as [u | e].
   2:{ simpl in H. inversion H; subst. split; [exact Hd | intros; discriminate]. }
   sx H. inv_of prim_Q E0. specialize (HI Hd).
@@ -568,8 +592,11 @@ Proof.
         rewrite (send_batch_connected _ _ _ _ _ E0) in E1. cbn [negb] in E1.
         rewrite run_bind in E1. destruct (run (if fx_arm cfg then update_deadline;;; Ret tt else Ret tt) w1) as [x wx] eqn:Ex.
         rewrite run_bind in E1. destruct (run quit wx) as [q wq] eqn:Eq.
+        assert (HMx : Minv wx).
+        { match type of Ex with run ?m w1 = _ => pose proof (run_inv _ prim_Q _ m w1 HI) as X end.
+          rewrite Ex in X. apply X. }
         destruct q as [uq | eq]; simpl in E1.
-        - inversion E1; subst. destruct (quit_ok _ _ _ Eq) as (_ & Q2 & _).
+        - inversion E1; subst. destruct (quit_ok _ _ _ HMx Eq) as (_ & Q2 & _).
           unfold close_client in E2. rewrite run_get in E2.
           rewrite Q2 in E2. cbn [negb run] in E2. inversion E2; subst. reflexivity.
         - rewrite run_bind in E1. match type of E1 with context [run ?m wq] => destruct (run m wq) end. simpl in E1. inversion E1. }
@@ -586,27 +613,30 @@ Qed.
 (* the pipeline of c.Text is in step: every id handed out has had its EndResponse (or no write can succeed any more) *)
 Definition PipeOk (w : world) : Prop :=
   endresp (w_cs w) = true /\
-  (pipe_out (w_cs w) = O \/ copen (w_conn w) = false \/ sopen (w_srv w) = false).
+  (pipe_out (w_cs w) = O \/ copen (w_conn w) = false \/ sopen (w_srv w) = false \/ wmode (w_srv w) <> None) /\
+  (* the mutex of smtp.Client is never left locked *)
+  mu_ok (w_cs w) = true /\ mu_held (w_cs w) = false.
 
 Lemma arm_J : forall w, opened (w_conn w) = true -> hung (w_conn w) = false -> PipeOk w -> Jinv (snd (run_prim PArm w)).
 Proof.
-  intros w Ho Hh [He Hp]. unfold run_prim. destruct (copen (w_conn w)) eqn:Ec; simpl; unfold Jinv; simpl; repeat split; auto;
-    try (intros; congruence); try (destruct Hp as [Hp | [Hp | Hp]]; auto; congruence).
+  intros w Ho Hh (He & Hp & Hm1 & Hm2). unfold run_prim. rewrite Hm2.
+  destruct (copen (w_conn w)) eqn:Ec; simpl; unfold Jinv; simpl; repeat split; auto;
+    try (intros; congruence); try (destruct Hp as [Hp | [Hp | [Hp | Hp]]]; auto; congruence).
 Qed.
 
 Lemma dial_J : forall fuel cfg w r w', fx_arm cfg = true -> w_conn w = conn0 ->
-  endresp (w_cs w) = true -> pipe_out (w_cs w) = O ->
+  endresp (w_cs w) = true -> pipe_out (w_cs w) = O -> Minv w ->
   run (dial fuel cfg) w = (r, w') ->
   hung (w_conn w') = false /\ (forall u, r = Ok u -> Jinv w').
 Proof.
-  intros fuel cfg w r w' Hf H0 He Hp H. rewrite dial_unfold in H.
+  intros fuel cfg w r w' Hf H0 He Hp HM H. rewrite dial_unfold in H.
   sx H. pose proof (connect2_spec _ _ _ _ E H0) as Hc. clear E.
   destruct a as [e | ].
   - simpl in H. inversion H; subst. destruct Hc as [Hc _]. rewrite Hc. simpl. split; [reflexivity | intros; discriminate].
   - destruct Hc as (Ho & _ & Hh & _ & _ & Hcs).
     sx H. unfold arm_opt in E. rewrite Hf in E. unfold prim1 in E. simpl in E.
     destruct (run_prim PArm w0) as [ok wa] eqn:Ea. simpl in E. inversion E; subst; clear E.
-    assert (HP : PipeOk w0) by (split; [ rewrite Hcs; exact He | left; rewrite Hcs; exact Hp ]).
+    assert (HP : PipeOk w0) by (unfold PipeOk, Minv in *; rewrite Hcs; repeat split; try apply HM; auto).
     pose proof (arm_J w0 Ho Hh HP) as HJ. rewrite Ea in HJ. simpl in HJ.
     pose proof (run_inv _ prim_J _ (dial_rest fuel cfg) w1 HJ) as HJ2. rewrite H in HJ2. simpl in HJ2.
     split; [ apply HJ2 | intros; exact HJ2 ].
@@ -664,36 +694,36 @@ Proof.
 Qed.
 
 Lemma dial_and_send_no_hang : forall fuel cfg msgs w, fx_arm cfg = true -> w_conn w = conn0 ->
-  endresp (w_cs w) = true -> pipe_out (w_cs w) = O ->
+  endresp (w_cs w) = true -> pipe_out (w_cs w) = O -> Minv w ->
   hung (w_conn (snd (run (dial_and_send fuel cfg msgs) w))) = false.
 Proof.
-  intros fuel cfg msgs w Hf H0 He Hp. unfold dial_and_send. rewrite run_bind.
+  intros fuel cfg msgs w Hf H0 He Hp HM. unfold dial_and_send. rewrite run_bind.
   destruct (run (dial fuel cfg) w) as [d w1] eqn:E.
-  destruct (dial_J _ _ _ _ _ Hf H0 He Hp E) as [A B].
+  destruct (dial_J _ _ _ _ _ Hf H0 He Hp HM E) as [A B].
   destruct d as [u | e]; [ | simpl; exact A ].
   match goal with |- hung (w_conn (snd (run ?m w1))) = false => pose proof (run_inv _ prim_J _ m w1 (B u eq_refl)) as HJ end.
   apply HJ.
 Qed.
 
 Lemma session_no_hang : forall fuel cfg msgs w, fx_arm cfg = true -> w_conn w = conn0 ->
-  endresp (w_cs w) = true -> pipe_out (w_cs w) = O ->
+  endresp (w_cs w) = true -> pipe_out (w_cs w) = O -> Minv w ->
   hung (w_conn (snd (run (session fuel cfg msgs) w))) = false.
 Proof.
-  intros fuel cfg msgs w Hf H0 He Hp. unfold session. rewrite run_bind.
+  intros fuel cfg msgs w Hf H0 He Hp HM. unfold session. rewrite run_bind.
   destruct (run (dial fuel cfg) w) as [d w1] eqn:E.
-  destruct (dial_J _ _ _ _ _ Hf H0 He Hp E) as [A B].
+  destruct (dial_J _ _ _ _ _ Hf H0 He Hp HM E) as [A B].
   destruct d as [u | e]; [ | simpl; exact A ].
   match goal with |- hung (w_conn (snd (run ?m w1))) = false => pose proof (run_inv _ prim_J _ m w1 (B u eq_refl)) as HJ end.
   apply HJ.
 Qed.
 
 Lemma session2_no_hang : forall fuel cfg msgs w, fx_arm cfg = true -> w_conn w = conn0 ->
-  endresp (w_cs w) = true -> pipe_out (w_cs w) = O ->
+  endresp (w_cs w) = true -> pipe_out (w_cs w) = O -> Minv w ->
   hung (w_conn (snd (run (session2 fuel cfg msgs) w))) = false.
 Proof.
-  intros fuel cfg msgs w Hf H0 He Hp. unfold session2. rewrite run_bind.
+  intros fuel cfg msgs w Hf H0 He Hp HM. unfold session2. rewrite run_bind.
   destruct (run (dial fuel cfg) w) as [d w1] eqn:E.
-  destruct (dial_J _ _ _ _ _ Hf H0 He Hp E) as [A B].
+  destruct (dial_J _ _ _ _ _ Hf H0 He Hp HM E) as [A B].
   destruct d as [u | e]; [ | simpl; exact A ].
   match goal with |- hung (w_conn (snd (run ?m w1))) = false => pose proof (run_inv _ prim_J _ m w1 (B u eq_refl)) as HJ end.
   apply HJ.
@@ -702,7 +732,7 @@ Qed.
 (* the pipeline stays in step: after any program run from a state satisfying J no command waits on a predecessor *)
 Lemma pipeline_in_step : forall A (m : prog A) w, Jinv w -> PipeOk (snd (run m w)).
 Proof.
-  intros A m w HJ. pose proof (run_inv _ prim_J _ m w HJ) as (_ & _ & _ & He & Hp). split; assumption.
+  intros A m w HJ. pose proof (run_inv _ prim_J _ m w HJ) as (_ & _ & _ & He & Hp & Hm1 & Hm2). repeat split; assumption.
 Qed.
 
 (* ------------------------------------------------------------------------------------------------ *)
@@ -943,7 +973,7 @@ Lemma C19_dial_error_closed_l : forall fuel cfg (s : srv) r w',
   copen (w_conn w') = false.
 Proof.
   intros fuel cfg s r w' Hf H Hr Ho.
-  pose proof (dial_closed fuel cfg (world0 s) r w' Hf eq_refl H) as X.
+  pose proof (dial_closed fuel cfg (world0 s) r w' Hf eq_refl (conj eq_refl eq_refl) H) as X.
   destruct r; [discriminate | auto].
 Qed.
 
@@ -954,7 +984,7 @@ Lemma C19_dial_and_send_closed_l : forall fuel cfg msgs (s : srv) r ph w',
   (is_ok r = true -> last_cmd (w_trace w') = Some VQuit).
 Proof.
   intros fuel cfg msgs s r ph w' Hc Hq H.
-  destruct (dial_and_send_closed fuel cfg msgs (world0 s) r ph w' Hc Hq eq_refl H) as [A B].
+  destruct (dial_and_send_closed fuel cfg msgs (world0 s) r ph w' Hc Hq eq_refl (conj eq_refl eq_refl) H) as [A B].
   split; [exact A | ]. destruct r as [u | e]; [ intros _; apply (B u eq_refl) | discriminate ].
 Qed.
 
@@ -963,19 +993,19 @@ Lemma C17_dial_no_hang_l : forall fuel cfg (s : srv), fx_arm cfg = true ->
 Proof.
   intros fuel cfg s Hf. unfold outcome_of.
   destruct (run (dial fuel cfg) (world0 s)) as [r w'] eqn:E.
-  destruct (dial_J fuel cfg (world0 s) r w' Hf eq_refl eq_refl eq_refl E) as [A _]. simpl. rewrite A. discriminate.
+  destruct (dial_J fuel cfg (world0 s) r w' Hf eq_refl eq_refl eq_refl (conj eq_refl eq_refl) E) as [A _]. simpl. rewrite A. discriminate.
 Qed.
 
 Lemma C17_dial_and_send_no_hang_l : forall fuel cfg msgs (s : srv), fx_arm cfg = true ->
   outcome_of (run (dial_and_send fuel cfg msgs) (world0 s)) <> Hang.
 Proof.
-  intros. unfold outcome_of. rewrite (dial_and_send_no_hang fuel cfg msgs (world0 s) H eq_refl eq_refl eq_refl). discriminate.
+  intros. unfold outcome_of. rewrite (dial_and_send_no_hang fuel cfg msgs (world0 s) H eq_refl eq_refl eq_refl (conj eq_refl eq_refl)). discriminate.
 Qed.
 
 Lemma C17_session_no_hang_l : forall fuel cfg msgs (s : srv), fx_arm cfg = true ->
   outcome_of (run (session fuel cfg msgs) (world0 s)) <> Hang.
 Proof.
-  intros. unfold outcome_of. rewrite (session_no_hang fuel cfg msgs (world0 s) H eq_refl eq_refl eq_refl). discriminate.
+  intros. unfold outcome_of. rewrite (session_no_hang fuel cfg msgs (world0 s) H eq_refl eq_refl eq_refl (conj eq_refl eq_refl)). discriminate.
 Qed.
 
 Lemma C17_send_no_hang_l : forall cfg msgs w, fx_arm cfg = true ->
@@ -1075,5 +1105,5 @@ Proof. intros. unfold quick_send. apply C17_dial_and_send_no_hang_l. reflexivity
 Lemma C17_session2_no_hang_l : forall fuel cfg msgs (s : srv), fx_arm cfg = true ->
   outcome_of (run (session2 fuel cfg msgs) (world0 s)) <> Hang.
 Proof.
-  intros. unfold outcome_of. rewrite (session2_no_hang fuel cfg msgs (world0 s) H eq_refl eq_refl eq_refl). discriminate.
+  intros. unfold outcome_of. rewrite (session2_no_hang fuel cfg msgs (world0 s) H eq_refl eq_refl eq_refl (conj eq_refl eq_refl)). discriminate.
 Qed.
